@@ -80,3 +80,23 @@ def rel_gaps(s):
         return np.zeros_like(s)
     nxt = np.append(s[1:], 0.0)
     return (s - nxt) / s[0]
+
+
+# ---- stratified class choice --------------------------------------------------------------------
+# Hypothesis' sampled_from is far from uniform over a few hundred cases (observed 12 vs 56 cases for two of 19 classes).
+# Every shard of a run is therefore responsible for its own slice of the class list, so that each class receives the
+# same share of the budget in every run.  The runner sets STRATUM = (shard index, number of shards, seed).
+STRATUM = None
+
+
+def stratum(classes):
+    """The slice of `classes` this shard draws from (all of them outside a sharded run, e.g. in ad-hoc scripts)."""
+    classes = list(classes)
+    if STRATUM is None:
+        return classes
+    shard, n_shards, seed = STRATUM
+    k = len(classes)
+    rot = classes[seed % k:] + classes[:seed % k]
+    if k >= n_shards:
+        return rot[shard::n_shards]
+    return [rot[shard % k]]
